@@ -1,7 +1,7 @@
 (* C11 — Mapping: map -> bytes -> map is the identity and the encoding is canonical. *)
 From Coq Require Import Sorting Permutation.
 From Model Require Import Bytes Prim Mapping.
-From Proofs Require Import BytesLemmas PrimProofs MappingProofs.
+From Proofs Require Import BytesLemmas PrimProofs MappingProofs MapRT.
 Open Scope Z_scope.
 
 (* the encoding is sorted by key (bytewise), whatever the iteration order *)
@@ -30,9 +30,33 @@ Example C11_nonvacuous_short_pair :
    | Some (m, r, e) => (map_values m, r, e) | None => ([], [], [MZero]) end) = ([([1; 97], [0])], [], [])%N.
 Proof. vm_compute. auto. Qed.
 
-(* the full round-trip statement (being proved; until then decided on the model by the
-   correspondence check and on the implementation by the round-trip oracle) *)
-Definition C11_roundtrip_statement : Prop :=
-  forall kv m, NoDup (map fst kv) -> go_map_to_mapping kv = Ok m ->
-    exists m', read_mapping (mapping_data m) = Some (m', [], []) /\
-               map_values m' = map_values m /\ Permutation (map_values m) (map (fun p => (N.of_nat (length (fst p)) :: fst p, N.of_nat (length (snd p)) :: snd p)) kv).
+(* map -> bytes -> map: any association list with distinct keys that GoMapToMapping accepts
+   (strings up to 255 bytes, any byte values including '=' and ';', at most 1000 pairs, at most
+   65,535 bytes) serialises to bytes that ReadMapping parses completely, with NO errors, back
+   to exactly the serialised pairs, which are the input entries sorted by key *)
+Theorem C11_roundtrip : forall kv m, NoDup (map fst kv) -> go_map_to_mapping kv = Ok m ->
+  exists sz, read_mapping (mapping_data m) = Some (mkMap (Some sz) (Some (map_values m)), [], []) /\
+    Permutation (map_values m) (map wire_pair kv) /\ Sorted key_le (map_values m) /\
+    be_decode sz = N.of_nat (length (serialize_pairs (map_values m))).
+Proof. exact go_map_roundtrip. Qed.
+Print Assumptions C11_roundtrip.
+(* the parser inverts the serialiser on every list of valid pairs with distinct keys, also
+   when other data follows (the only diagnostic is then the non-fatal "data beyond" warning) *)
+Theorem C11_parse_serialised : forall ps rest,
+  Forall pair_ok ps -> NoDup (keys_of ps) -> (length ps <= 1000)%nat ->
+  (N.of_nat (length (serialize_pairs ps)) < 65536)%N ->
+  let payload := serialize_pairs ps in
+  let sz := be_encode 2 (N.of_nat (length payload)) in
+  read_mapping (sz ++ payload ++ rest) =
+    Some (mkMap (Some sz) (Some ps), rest, match ps, rest with [], _ => [] | _, [] => [] | _, _ => [MBeyond] end).
+Proof. exact read_mapping_serialized. Qed.
+Print Assumptions C11_parse_serialised.
+Theorem C11_oversize_rejected : forall kv p, to_pairs kv = Ok p ->
+  65535 < Z.of_nat (length (serialize_pairs (mapping_order p))) -> go_map_to_mapping kv = Err.
+Proof. exact go_map_rejects_over_size. Qed.
+(* "a mapping parsed without error re-serialises to the bytes it was read from" is FALSE of
+   the faithful model (known finding D2): 1-5 bytes of slack inside the declared size *)
+Theorem C11_reserialise_refuted : exists x m, read_mapping x = Some (m, [], []) /\ mapping_data m <> x.
+Proof.
+  exists [0; 8; 1; 97; 61; 0; 59; 1; 2; 3]%N. eexists. split; [vm_compute; reflexivity|]. vm_compute. discriminate.
+Qed.
